@@ -59,6 +59,12 @@ func genConc(g *genCtx) {
 		}
 		g.emit(c)
 	}
+	// two programs that are all fan-out: every goroutine builds with every coding as a candidate / re-uses its own builder
+	for k, hk := range []int{16, 17, 4} {
+		if g.mine(np + k) {
+			g.emit(Case{"seed": r.Int63(), "g": maxG, "ops": 1, "procs": 8, "hk": hk})
+		}
+	}
 }
 
 func digest(s string) string {
@@ -351,6 +357,9 @@ func runConc(c Case, tr *Tracer) {
 	// that calls into one piece of library code really overlap (the pools' own atomics order most other accesses)
 	tailFrom := nops
 	hk := int(uint(caseInt(c, "t")) % 18)
+	if v := caseInt(c, "hk"); v > 0 {
+		hk = v
+	}
 	reps := map[int]int{2: 3, 3: 3, 4: 3, 8: 3, 0: 20, 1: 20, 7: 20, 9: 20, 10: 20, 14: 6, 16: 6, 17: 4}[hk]
 	if reps == 0 {
 		reps = 100
